@@ -70,7 +70,7 @@ def s1(ck, an):
     _conv(ck, an, "NrContracts._to_weights", "S1.contracts-to-weights", "{c}.multiplier * {v} * broker.exchange[{c}].acq_price({v}) / broker.net_liquidation_value()", "Weights",
           "imbalance weight = multiplier x quantity x acq_price(quantity) / NLV")
     fq = an.fa("LimitOrderBook.acq_price")
-    tab = sign_table_func(fq, fq.f.params[1])
+    tab = sign_table_or_fail(ck, fq, fq.f.params[1], "S3.execution-side-shape") or {"neg": "?", "pos": "?", "zero": "?", "nan": "?"}
     ck.check(tab["neg"] == "self.bid_price" and tab["pos"] == "self.ask_price", "SIGN", "S1.execution-side", fq.f.short, fq.f.loc, "acq_price: ask for long targets, bid for short targets",
              f"acq_price table {tab}", construct="acq_price")
 
